@@ -521,10 +521,27 @@ func floatArgs(rt *rapid.T, xs []float64, w int, sh *Shape) []any {
 		var a any
 		switch typ {
 		case "float64":
+			src := seg
+			if w == 4 && rapid.Bool().Draw(rt, "f4unrounded") {
+				// an F4 item is documented to take float64 arguments: pass values that are NOT float32-exact
+				// but round (to nearest) to the intended float32, so the logical value is unchanged
+				src = mapSlice(seg, func(x float64) float64 {
+					if x == 0 || math.IsNaN(x) || math.IsInf(x, 0) {
+						return x
+					}
+					for _, f := range []float64{1 + 1e-9, 1 - 1e-9} {
+						if y := x * f; float64(float32(y)) == x && y != x {
+							return y
+						}
+					}
+					return x
+				})
+				sh.add("float-f4-unrounded")
+			}
 			if scalar[gi] {
-				a = seg[0]
+				a = src[0]
 			} else {
-				a = append([]float64{}, seg...)
+				a = append([]float64{}, src...)
 			}
 		case "float32":
 			if scalar[gi] {
